@@ -240,6 +240,13 @@ def run(facts, rep, tier):
             if ans is False:
                 continue
             ok = tr in STD_IMPLS[kind]
+            if kind == "Integer" and tr == "Default":
+                # the Integer kind also holds ::std::num::NonZero*: the answer must exclude them
+                txt = ans[1] if isinstance(ans, tuple) and len(ans) > 1 else str(ans)
+                okn = ans is not True and "NonZero" in str(txt)
+                rep.ob("C17.D1", "has_impl=>std:Integer/Default:not-for-NonZero", okn,
+                       "Default is reported for integers except the NonZero types (`%s`)" % str(txt)[:80] if okn else
+                       "has_impl(Default) answers true for every Integer entry, and that kind also holds ::std::num::NonZeroU8..U64, which have no Default", c.fns[hs[0]["fn"]].get("sp"))
             rep.ob("C17.D1", "has_impl=>std:%s/%s" % (kind, tr), ok,
                    "%s may be reported for %s and std implements it" % (tr, kind) if ok else "has_impl(%s) can answer true for the built-in kind %s, which does not implement it" % (tr, kind), c.fns[hs[0]["fn"]].get("sp"))
     rep.floor("C17.D1", "named-kind cells that can answer true", n_named, 8)
